@@ -139,6 +139,11 @@ cls(
         # so from the moment the application's websocket.close is being processed -- across every
         # suspension of that call -- the state must already say so (seeded/C11-ws-close-state-after-send)
         ("C11.own-close-state", "implies(self.g_app_closed, self.state in (ASGIWebsocketState.CLOSED, ASGIWebsocketState.HTTPCLOSED))", "C11"),
+        # ... and conversely: CLOSED is the *application's* close.  What the client does (its close
+        # frame) is recorded in `closed` when the stream is closed, not in the state the
+        # application's messages are judged by: a send that races with the client's close must be
+        # swallowed (C03 "accepted silently"), not refused as invalid for the state
+        ("C03.ws.closed-state-is-own-close", "implies(self.state == ASGIWebsocketState.CLOSED, self.g_app_closed)", "C03,C11"),
         ("WSStream.inv.accepted-started", "implies(has(self, 'handshake') and value_of(self, 'handshake').accepted, self.g_app_started)", "C11"),
         ("WSStream.inv.accepted", "implies(has(self, 'handshake') and value_of(self, 'handshake').accepted, has(self, 'connection'))", "C04"),
         # the handshake and the scope were built from the same Request
